@@ -282,18 +282,45 @@ def _item_of(n):
     return None
 
 
+def _strip_iter(e):
+    while e[0] == "call" and len(e[2]) == 1 and e[1].rsplit("::", 1)[-1] in ("iter", "into_iter", "deref", "as_slice"):
+        e = e[2][0]
+    return e
+
+
+def _is_window_zip(c):
+    """`next(zip(Windows::iter(windows), parameters / parameters.iter()))`"""
+    if not (c[0] == "call" and "Zip" in c[1] and c[1].endswith("::next") and c[2]):
+        return False
+    a = c[2][0]
+    return a[0] == "call" and a[1].endswith("Iterator::zip") and len(a[2]) == 2 and \
+        show(a[2][0]) == "model::voice::window::Windows::iter(windows)" and show(_strip_iter(a[2][1])) == "parameters"
+
+
 def _symbolise(e):
     """name the iterator items of calc_wuw_and_wum: T (frame), E = (window index, window),
     O = outer tap (WindowIndex, coefficient) of E.1 from index 0, IN = inner tap from index(O)"""
     from ..loops import rewrite
 
+    params = {}
+
     def f(n):
+        # zipped form `for (window, row) in windows.iter().zip(&parameters)`: the pair is read as
+        # the enumerate form - window = E.1, row[k] = parameters[E.0][k] (zip pairs both from the
+        # start, in order)
+        if n == ("field", ("sym", "EZ"), "0"):
+            return ("field", ("sym", "E"), "1")
+        if n[0] == "idx" and n[1] == ("field", ("sym", "EZ"), "1") and "p" in params:
+            return ("idx", ("idx", params["p"], ("field", ("sym", "E"), "0")), n[2])
         c = _item_of(n)
         if c is None:
             return None
         nm, a = c[1], c[2][0]
         if "Enumerate" in nm and a[0] == "call" and a[1].endswith("Iterator::enumerate") and show(a[2][0]) == "model::voice::window::Windows::iter(windows)":
             return ("sym", "E")
+        if _is_window_zip(c):
+            params["p"] = _strip_iter(a[2][1])
+            return ("sym", "EZ")
         if a[0] == "call" and a[1].endswith("Window::iter_rev") and len(a[2]) == 2:
             w, s = a[2]
             if w == ("field", ("sym", "E"), "1"):
@@ -362,6 +389,8 @@ def check_assembly(ctx, p):
             if kind == "some" and c[0] == "call" and "Range" in c[1] and show(c[2][0]) == "std::ops::Range::Range{start: 0, end: len(parameters[0])}":
                 need["t-loop"] = True
             elif kind == "some" and c[0] == "call" and "Enumerate" in c[1] and show(c[2][0]) == "std::iter::Iterator::enumerate(model::voice::window::Windows::iter(windows))":
+                need["windows"] = True
+            elif kind == "some" and _is_window_zip(c):
                 need["windows"] = True
             elif kind == "some" and c[0] == "call" and c[2][0][0] == "call" and c[2][0][1].endswith("Window::iter_rev") and c[2][0][2][0] == ("field", SE, "1"):
                 s = c[2][0][2][1]
